@@ -228,7 +228,7 @@ theorem lits_hs : Gen.lits_specarray_hs = [1, Consts.thr, Consts.quarter, 1, 1, 
 theorem lits_hrms : Gen.lits_specarray_hrms = [1, Consts.thr, Consts.quarter, 1, 1, 8] := by decide +kernel
 theorem lits_hmax : Gen.lits_specarray_hmax = [1, 1/2, Consts.hmaxK] := by decide +kernel
 theorem lits_npstats_hs : Gen.lits_npstats_hs =
-    [1, 1, 1, 1, 0, 1, 1/2, 1, 1, 1, Consts.thr, Consts.quarter, 1, 1, 4] := by decide +kernel
+    [1, 1, 1, 1, 0, 360, 1, 1/2, 1, 1, 1, Consts.thr, Consts.quarter, 1, 1, 4] := by decide +kernel
 theorem lits_deep : Gen.lits_utils_celerity = [2, Consts.deep] ∧ Gen.lits_utils_wavelen = [2, Consts.deep, 2] ∧
     Gen.lits_specarray_uss = [Consts.deep, 1, 2, 2, 4] ∧ Gen.lits_specarray_mss = [Consts.deep, 1, 2, 2, 2] ∧
     Gen.lits_specarray_uss_x = [90, Consts.deep, 1, 2, 2, 4, 180] ∧
@@ -278,9 +278,10 @@ theorem gen_npHs_eq (e : Mat) (f : Vec) (dir : Option Vec) (tail : Bool) :
       List.length_nil, List.length_cons, List.getD_cons_zero, List.getD_cons_succ, gt_iff_lt] <;>
     cases tail <;> by_cases h : (5998794703657501 : ℚ) / 18014398509481984 < lastD f <;> simp [h]
 
-/-- non-vacuity of the generated `hs`: 3×2 spectrum, `Δθ = |10 − 350| = 340`, tail active (0.5 > 0.333) -/
+/-- non-vacuity of the generated `hs`: 3×2 spectrum stored with the 0/360 wrap between its two directions,
+    `Δθ = min(|10 − 350|, 360 − 340) = 20` (the short way round; 340 before the repair), tail active (0.5 > 0.333) -/
 example : Gen.npHsE [[1, 2], [0, 3], [4, 1]] [1/8, 1/4, 1/2] (some [350, 10]) true =
-    (1/2) * ((1/8) * (340 * 3 + 340 * 3) + (1/4) * (340 * 5 + 340 * 3)) + (1/4) * (340 * 5) * (1/2) := by
+    (1/2) * ((1/8) * (20 * 3 + 20 * 3) + (1/4) * (20 * 5 + 20 * 3)) + (1/4) * (20 * 5) * (1/2) := by
   decide +kernel
 
 theorem gen_npHs_factor : Gen.npHsFactor = 4 := by decide +kernel
